@@ -13,7 +13,8 @@ RULE = ("Model-based TestResult histories (startTestRun, tags, time, startTest, 
         "trees of depth 1..3 over ExtendedToOriginalDecorator, MultiTestResult (2 targets), TestResultDecorator, "
         "Tagger, ThreadsafeForwardingResult and TestByTestResult leaves x five target flavours (2.6-style, "
         "2.7-style, extended, Twisted-style, real testtools.TestResult); every innermost target's log is compared "
-        "with the input history mapped through the documented degradation table. Non-trivial: stack depth >= 2, or "
+        "with the input history mapped through the documented degradation table. Also generated: err=/reason= by keyword, MultiTestResult of 1..3 results, tests sharing an id or reported again as the same object, one details dict object handed to several calls (the oracle compares against a private copy and checks the dict is left as it was), exact detail names, run-level call counts at the targets, the outermost adapter's own verdict. "
+        "Non-trivial: stack depth >= 2, or "
         "a degrading flavour, or the details->exception/reason fallback taken; distinct = distinct canonical "
         "(stack, history).")
 ASSUMPTIONS = [
